@@ -306,6 +306,9 @@ class TreeGen:
         lo, hi = self.leaves[n]
         if (lo, hi) == (0, 1) and self.rng.random() < self.str_p:
             return {"c": "str", "id": n}
+        if self.rng.random() < 0.1:
+            # declared with a dtype as well (one occurrence may, another of the same variable need not: same id, same bounds)
+            return {"c": "var", "id": n, "lo": lo, "hi": hi, "$dtype": self.rng.choice(["bool", "int"]) if (lo, hi) == (0, 1) else "int"}
         if self.rng.random() < 0.15:
             # an instance of a variable subclass (every other name: one with its own constructor signature)
             return {"c": "var", "id": n, "lo": lo, "hi": hi, "$sub": "ctor" if ord(n[-1]) % 2 else True}
